@@ -142,14 +142,21 @@ def check_case(W, datamap, s):
             if x.type in W.sources:   # constants-backed types have no Getter in the demo configuration
                 continue
             exp.append(record(W, datamap, cfg, x.uri, x.string, None, "str"))
-        got = list(GetFromAll().get(s))
-        got = json.loads(json.dumps(got, default=str))
-        exp = json.loads(json.dumps(exp, default=str))
-        if sorted(map(json.dumps, got)) != sorted(map(json.dumps, exp)):
-            sig = "get-from-all-differs"
-            if len(got) > len(exp) and {json.dumps(g) for g in got} == {json.dumps(e) for e in exp}:
-                sig += "/same-sid-returned-more-than-once"
-            bad(sig, got[:4], exp[:4])
+        found_all = [(x.uri, x.string) for x in FindInAll().find(s) if x.type not in W.sources]
+        for attrs in ATTRS:
+            for enc in ENCS:
+                got = list(GetFromAll().get(s, attributes=attrs, sid_encode=enc_fn(enc)))
+                exp = [record(W, datamap, cfg, u, st, attrs, enc) for u, st in found_all]
+                got = json.loads(json.dumps(got, default=str))
+                exp = json.loads(json.dumps(exp, default=str))
+                if sorted(map(json.dumps, got)) != sorted(map(json.dumps, exp)):
+                    sig = "get-from-all-differs"
+                    if len(got) > len(exp) and {json.dumps(g) for g in got} == {json.dumps(e) for e in exp}:
+                        sig += "/same-sid-returned-more-than-once"
+                    elif len(got) < len(exp):
+                        sig += "/records-missing"
+                    bad(sig, [attrs, enc, got[:4]], exp[:4])
+                    break
     except SpilException:
         pass
     except Exception as e:  # noqa
